@@ -36,21 +36,43 @@ Proof.
   destruct (maxc c <? ch) eqn:E; [lia | reflexivity].
 Qed.
 
-Lemma write_norm_id : forall c s, forallb (fun ch => (ch <=? maxc c) && negb (ch =? 13)) s = true -> write_norm c s = Some s.
+Lemma write_norm_general : forall c ch r (general : option str) res,
+  (ch =? 13) = false -> general = res ->
+  match r with
+  | 10 :: r' => if ch =? 13 then opt_app newline (write_norm c r') else general
+  | _ => general
+  end = res.
 Proof.
-  intros c. induction s as [|ch s IH]; [reflexivity|]. cbn [forallb]. intros H. apply andb_true_iff in H. destruct H as [H1 H2].
-  apply andb_true_iff in H1. destruct H1 as [H1 H3]. specialize (IH H2).
-  assert (G : (if ch =? 10 then opt_app newline (write_norm c s)
-               else if ch <=? maxc c then opt_app (content_unit c ch) (write_norm c s)
-               else if is_high ch then match s with [] => None | next :: r' => if is_lowsur next then opt_app (numref (pair_cp ch next)) (write_norm c r') else None end
-               else opt_app (numref ch) (write_norm c s)) = Some (ch :: s)).
-  { rewrite IH. destruct (ch =? 10) eqn:E10.
-    - apply N.eqb_eq in E10. subst ch. reflexivity.
-    - rewrite H1. unfold content_unit. destruct (maxc c <? ch) eqn:E; [lia | reflexivity]. }
-  cbn [write_norm]. destruct (ch =? 13) eqn:E13; [discriminate|].
-  destruct s as [|x s']; [exact G|]. destruct x as [|p]; [exact G|].
-  do 4 (destruct p; try exact G).
+  intros c ch r general res H13 G. destruct r as [|x r']; [exact G|]. destruct x as [|p]; [exact G|].
+  do 4 (destruct p; try exact G). rewrite H13. exact G.
 Qed.
+
+Lemma write_norm_id_n : forall c n s, (length s <= n)%nat -> wf16 s = true ->
+  forallb (fun ch => (ch <=? maxc c) && negb (ch =? 13)) s = true -> write_norm c s = Some s.
+Proof.
+  intros c. induction n as [|n IH]; intros s Hn Hwf H.
+  - destruct s; [reflexivity | cbn in Hn; lia].
+  - destruct s as [|ch r]; [reflexivity|]. cbn [length] in Hn.
+    cbn [forallb] in H. apply andb_true_iff in H. destruct H as [H1 H2].
+    apply andb_true_iff in H1. destruct H1 as [H1 H3]. apply negb_true_iff in H3.
+    cbn [write_norm]. apply write_norm_general; [exact H3|].
+    cbn [wf16] in Hwf. destruct (is_high ch) eqn:Eh.
+    + destruct r as [|lo r']; [discriminate|]. apply andb_true_iff in Hwf. destruct Hwf as [Hlo Hwr].
+      cbn [forallb] in H2. apply andb_true_iff in H2. destruct H2 as [H4 H5]. apply andb_true_iff in H4. destruct H4 as [H4 _].
+      assert (ch =? 10 = false) as -> by (unfold is_high in Eh; lia). rewrite H1.
+      assert ((55296 <=? ch) && (ch <? 57344) = true) as -> by (unfold is_high in Eh; lia).
+      assert ((ch <? 56320) && is_lowsur lo = true) as -> by (unfold is_high in Eh; rewrite Hlo; lia).
+      rewrite (IH r') by (cbn [length] in Hn; try lia; assumption).
+      unfold content_unit. destruct (maxc c <? ch) eqn:E1; [lia|]. destruct (maxc c <? lo) eqn:E2; [lia|]. reflexivity.
+    + apply andb_true_iff in Hwf. destruct Hwf as [Hnl Hwr]. apply negb_true_iff in Hnl.
+      rewrite (IH r) by (try lia; assumption).
+      destruct (ch =? 10) eqn:E10; [apply N.eqb_eq in E10; subst ch; reflexivity|].
+      rewrite H1. assert ((55296 <=? ch) && (ch <? 57344) = false) as -> by (unfold is_high in Eh; unfold is_lowsur in Hnl; lia).
+      unfold content_unit. destruct (maxc c <? ch) eqn:E; [lia | reflexivity].
+Qed.
+
+Lemma write_norm_id : forall c s, wf16 s = true -> forallb (fun ch => (ch <=? maxc c) && negb (ch =? 13)) s = true -> write_norm c s = Some s.
+Proof. intros c s. apply (write_norm_id_n c (length s) s (le_n _)). Qed.
 
 Lemma forallb_weaken_maxc : forall c s, forallb (fun ch => (ch <=? maxc c) && negb (ch =? 13)) s = true -> forallb (fun ch => ch <=? maxc c) s = true.
 Proof.
@@ -60,11 +82,11 @@ Qed.
 (* SCRIPT and STYLE (any ASCII case): the text child is written unit for unit between the tags, nothing escaped *)
 Lemma raw_content_verbatim : forall c top ins raw op name attrs ao s,
   in_names (map low name) raw4 = true -> ser_attrs c name attrs = Some ao ->
-  s <> [] -> forallb (fun ch => (ch <=? maxc c) && negb (ch =? 13)) s = true ->
+  s <> [] -> wf16 s = true -> forallb (fun ch => (ch <=? maxc c) && negb (ch =? 13)) s = true ->
   ser_node c top ins raw op (HEl name attrs [HText s]) =
   Some (pte op ++ [60] ++ acc_name c name ++ ao ++ [62] ++ s ++ [60; 47] ++ acc_name c name ++ [62], false).
 Proof.
-  intros c top ins raw op name attrs ao s Hr Ha Hs Hm. cbn [ser_node]. rewrite Ha.
+  intros c top ins raw op name attrs ao s Hr Ha Hs Hwf Hm. cbn [ser_node]. rewrite Ha.
   destruct (raw_not_head_void _ Hr) as (H1 & H2).
   rewrite elem_is_head, H1, elem_is_void, H2, elem_is_raw, Hr, elem_is_script. cbn [negb].
   destruct s as [|s0 s']; [congruence|].
@@ -72,6 +94,20 @@ Proof.
                else if true then write_norm c (s0 :: s') else write_chars c (s0 :: s')) = Some (s0 :: s')).
   { destruct (if str_eqb (map low name) [115; 99; 114; 105; 112; 116] then true else ins).
     - rewrite acc_content_id by (apply forallb_weaken_maxc; exact Hm). reflexivity.
-    - apply write_norm_id. exact Hm. }
+    - apply write_norm_id; assumption. }
   rewrite T. cbn [pte app]. repeat (rewrite <- ?app_assoc; cbn [app]). reflexivity.
+Qed.
+
+(* ---- processing instructions: "<?" target, a space unless the data starts with white space, the data, ">" -------- *)
+Lemma pi_data_raw : forall c d, forallb (fun ch => ch <=? maxc c) d = true -> pi_data false c d = Some d.
+Proof. intros c d H. unfold pi_data. rewrite acc_content_id by exact H. reflexivity. Qed.
+
+Lemma pi_raw_this_tree : forall c top ins raw op t d,
+  forallb (fun ch => ch <=? maxc c) d = true ->
+  ser_node c top ins raw op (HPI t d) =
+  Some (pte op ++ [60; 63] ++ acc_name c t ++
+        (match d with [] => [] | d0 :: _ => (if is_xml_ws d0 then [] else [32]) ++ d end) ++ [62] ++ (if top then newline else []), false).
+Proof.
+  intros c top ins raw op t d H. cbn [ser_node]. unfold pi_data_is_escaped.
+  destruct d as [|d0 d']; [reflexivity|]. rewrite pi_data_raw by exact H. reflexivity.
 Qed.
